@@ -138,11 +138,22 @@ class PathResolver:
         return None
 
     def local(self, frame, l, i, si, depth=0):
+        # the value of a local at a path position depends only on its latest definition on the path: memoised per definition site
         body = frame.body
         name = body.local_name(l)
         if depth > 60:
             return ('local', l, name)
         d = self._def_on_path(frame, l, i, si)
+        memo = self.__dict__.setdefault("_memo", {})
+        mk = (frame.id, l, d)
+        if d is not None and mk in memo:
+            return memo[mk]
+        r = self._local(frame, l, i, si, depth, d, name, body)
+        if d is not None and depth < 40:
+            memo[mk] = r
+        return r
+
+    def _local(self, frame, l, i, si, depth, d, name, body):
         if d is None:
             if 1 <= l <= body.argc:
                 return self.param(frame, l, i, depth)
